@@ -18,6 +18,8 @@ structure St where
   a : Option Pipe := none
   b : Option Pipe := none
   n : Option Nat := none                          -- no-alloc logger: its level
+  adf : Nat := 1                                  -- date format of pipeline a's formatter
+  bdf : Nat := 1
   c : Option Nat := none                          -- pipeline whose formatter reports success without a line: its level
   slots : Slots := fun _ => none                  -- registered log-subject lists (names per package slot)
   wfail : List Nat := []                          -- ordinals (since case start) of recording-writer calls that fail
@@ -63,6 +65,17 @@ def step (s : St) (t : List String) : St × List String :=
     | some total, some level, some subject, some msgLen, some df, some shape =>
       (s, stepFmt tid tss total level subject msgLen df shape)
     | _, _, _, _, _, _ => (s, ["bad-op"])
+  | ["initfail", k] =>
+    -- init of the standard logger / no-alloc logger / file writer on a file name that cannot be opened: error, nothing kept
+    if k == "s" || k == "n" || k == "w" then (s, ["P initfail rc=ERR live=0 fds=0"]) else (s, ["bad-op"])
+  | ["init", w, level, df] =>
+    match level.toNat?, df.toNat? with
+    | some level, some df =>
+      if df > 2 then (s, ["bad-op"])
+      else if w == "a" then (if s.a.isSome then (s, ["bad-op"]) else ({ s with adf := df, a := some { level := level, chan := .foreground, written := [], destroyed := [] } }, []))
+      else if w == "b" then (if s.b.isSome then (s, ["bad-op"]) else ({ s with bdf := df, b := some { level := level, chan := .failing, written := [], destroyed := [] } }, []))
+      else (s, ["bad-op"])
+    | _, _ => (s, ["bad-op"])
   | ["init", w, level] =>
     match level.toNat? with
     | none => (s, ["bad-op"])
@@ -137,7 +150,8 @@ def step (s : St) (t : List String) : St × List String :=
     match level.toNat?, (parseSize? sid).bind (subjectName s.slots), parseSize? msgLen, shape.toNat? with
     | some level, some subject, some msgLen, some shape =>
       if how != "macro" && how != "cond" then (s, ["bad-op"]) else
-      let c : Call := { level := level, subject := subject, msg := msgOf msgLen shape, ts := tsOf tss 1, tid := tid,
+      let c : Call := { level := level, subject := subject, msg := msgOf msgLen shape,
+                        ts := tsOf tss (if w == "a" then s.adf else if w == "b" then s.bdf else 1), tid := tid,
                         writeOk := !(s.wfail.contains s.wcalls) }
       let go (p : Pipe) : Pipe × List String :=
         let p' := logf p c
@@ -234,7 +248,13 @@ def bgStep (s : Sys) (t : List String) : Sys × List String :=
         | "send", .idle => go [.startSend i]
         | "lock", .lock _ => go [.sender i, .sender i]
         | "signal", .notify _ => go [.sender i]
-        | "unlock", .unlock l => go [.sender i] (fun _ => [s!"P sent {showLine l}"])
+        | "unlock", .unlock _ => go [.sender i]
+        | "returned", .idle =>
+          -- the send call is back in the caller (observed by the harness some schedule points after the unlock)
+          (match (s.completed.filter (fun l => l.1 = i)).getLast? with
+           | some l => (s, [s!"P sent {showLine l}"])
+           | none => fail)
+        | "returned", _ => fail
         | "send", _ => fail
         | "lock", _ => fail
         | "signal", _ => fail
